@@ -150,7 +150,7 @@ def run_extend(k):
 
 def worker(t):
     prog = H.get_program()
-    S.BITS_MODE[:] = ['uf', 128]
+    S.BITS_MODE[:] = ['ladder', 192]        # exact bit-length facts (the pinned code of this property never asks for bits() of a symbolic integer; rewrites might)
     k = t['kind']
     if k == 'acc':
         run = run_accessors(t['which'])
